@@ -13,8 +13,10 @@ import (
 )
 
 const verifFP1 = "2B280B23E1107BB62ABFC40DDCC8824814F80A72"
+
 // a 32-byte fingerprint that shares its first 20 bytes with verifFP1: the two are different bridges
 const verifFP2 = verifFP1 + "0123456789ABCDEF01234567"
+
 // absent from every list, and again sharing 20 bytes with a listed bridge
 const verifFPAbsent = verifFP1 + "FFFFFFFFFFFFFFFFFFFFFFFF"
 const verifURL1 = "wss://bridge-one.example/"
